@@ -1,6 +1,9 @@
 package verifsim
 
 import (
+	"sync/atomic"
+
+	"github.com/anishathalye/porcupine"
 	"sort"
 	"strings"
 )
@@ -90,4 +93,30 @@ func (k *KV) Under(prefix string) []string {
 	}
 	sort.Strings(out)
 	return out
+}
+
+// checkBounded runs porcupine with a budget of model steps. Inside a synctest
+// bubble a wall-clock timeout never fires while the checker is computing (the
+// fake clock only moves when every goroutine is blocked), so the bound is on
+// work done: when it is exceeded the model stops producing successors and the
+// verdict is discarded as inconclusive (Unknown) - never reported as Illegal.
+func checkBounded(nd porcupine.NondeterministicModel, ops []porcupine.Operation, budget int64) porcupine.CheckResult {
+	var n atomic.Int64
+	var over atomic.Bool
+	step := nd.Step
+	nd.Step = func(state, input, output any) []any {
+		if n.Add(1) > budget {
+			over.Store(true)
+			return nil
+		}
+		return step(state, input, output)
+	}
+	ok := porcupine.CheckOperations(nd.ToModel(), ops)
+	if over.Load() {
+		return porcupine.Unknown
+	}
+	if ok {
+		return porcupine.Ok
+	}
+	return porcupine.Illegal
 }
